@@ -1,4 +1,6 @@
 import CgtModel.Report
+import CgtModel.Lemmas.Prepass
+import CgtModel.Lemmas.Sorted
 import CgtModel.Lemmas.WellFormed
 import CgtModel.Lemmas.Cost
 import CgtModel.Lemmas.Offsets
@@ -81,6 +83,82 @@ theorem C03_ledger (w : Int) (l : List Tx) (hwf : WellFormed l) (rs : List Ticke
         = totalDayCost (C02.setOffsets f (daysOf r.ticker (preprocess l))) :=
   fun r hr => C03_run_conserves w l rs h r hr (wellFormed_days l hwf r.ticker).1 (wellFormed_days l hwf r.ticker).2
 
+/-! ### the full statement: purchases plus the events that took effect -/
+
+/-- Σ quantity × price + fees over the days' purchases -/
+def purchases (ds : List Day) : Rat := totalDayCost (C02.setOffsets (fun _ => 0) ds)
+
+theorem purchases_eq (ds : List Day) : purchases ds = purchasesOf ds := by
+  unfold purchases purchasesOf
+  induction ds with
+  | nil => rfl
+  | cons d ds ih =>
+    simp only [C02.setOffsets, List.map_cons, totalDayCost, rsum_cons] at ih ⊢
+    rw [ih]
+    cases hb : d.buy <;> simp [dayCost, hb] <;> grind
+
+theorem buyOrds_eq (ds : List Day) :
+    (ds.map buyOrd).flatten = (ds.filter (fun d => d.buy.isSome)).map Day.ord := by
+  induction ds with
+  | nil => rfl
+  | cons d ds ih =>
+    simp only [List.map_cons, List.flatten_cons, List.filter_cons]
+    cases hb : d.buy with
+    | none => simp [buyOrd, hb, ih]
+    | some b => simp [buyOrd, hb, ih]
+
+/-- **C03 for one security, in full**: with strictly increasing day dates, the legs' allowable cost plus
+    the cost left in the pool equals the purchases' cost (quantity × price + fees) plus the signed
+    amounts of exactly those accumulation / capital-return events that found shares held -/
+theorem C03_security_full (t : String) (w : Int) (ds : List Day) (pool : Option Pool) (legs : List Leg)
+    (hok : daysOk ds) (hnz : buysNonzero ds) (hstrict : ds.Pairwise (fun a b => a.ord < b.ord))
+    (h : runTicker t w ds = .ok (pool, legs)) :
+    legCost legs + poolC' pool = purchases ds + effAll t [] ds := by
+  unfold runTicker at h
+  split at h
+  · cases h
+  · rename_i ds' hw
+    unfold withOffsets at hw
+    split at hw
+    · cases hw
+    · rename_i lots hpre
+      simp only [Except.ok.injEq] at hw
+      have hds' : ds' = C02.setOffsets (fun d => offsetFor d.ord lots) ds := hw.symm
+      subst hds'
+      have hok' := C02.daysOk_setOffsets (fun d => offsetFor d.ord lots) ds hok
+      have hcost := runDays_cost t w _ none [] pool legs hok'
+        (buysNonzero_setOffsets _ ds hnz) (by simp [poolQ']) (claimsOk_nil _ hok') h
+      rw [claimCost_nil] at hcost
+      have hsplit := C03_offsets_split (fun d => offsetFor d.ord lots) ds
+      obtain ⟨_, hoff, hords⟩ := prepass_props t ds [] lots (fun _ hx => by simp at hx) hok hpre
+      have hlo : lotOrds lots = (ds.filter (fun d => d.buy.isSome)).map Day.ord := by
+        rw [hords, buyOrds_eq]; simp [lotOrds]
+      have hnd : (lotOrds lots).Nodup := by
+        rw [hlo]
+        have hsub : ((ds.filter (fun d => d.buy.isSome)).map Day.ord).Sublist (ds.map Day.ord) :=
+          List.Sublist.map _ List.filter_sublist
+        have hp : (ds.map Day.ord).Pairwise (· < ·) := by rw [List.pairwise_map]; exact hstrict
+        exact (hp.sublist hsub).imp (fun hlt => by omega)
+      have hsum := sum_offsetFor lots hnd
+      rw [hlo, List.map_map] at hsum
+      have e : ((fun o => offsetFor o lots) ∘ Day.ord) = (fun d : Day => offsetFor d.ord lots) := rfl
+      rw [e] at hsum
+      unfold purchases
+      have hoff0 : offSum ([] : List Lot) = 0 := rfl
+      have hnone : poolC' (none : Option Pool) = 0 := rfl
+      rw [hsplit, hsum, hoff, hoff0, hnone] at hcost
+      grind
+
+/-- **C03 from the raw ledger, in full**: for every validator-clean ledger the matcher accepts and
+    every security, Σ legs' allowable cost + cost left in the closing holding = Σ (quantity × price +
+    fees) of its purchases + the accumulation amounts − net capital returns that took effect -/
+theorem C03_ledger_full (w : Int) (l : List Tx) (hwf : WellFormed l) (rs : List TickerResult)
+    (h : run w l = .ok rs) :
+    ∀ r ∈ rs, legCost r.legs + poolC' r.pool
+      = purchases (daysOf r.ticker (preprocess l)) + effAll r.ticker [] (daysOf r.ticker (preprocess l)) :=
+  fun r hr => C03_security_full r.ticker w _ r.pool r.legs (wellFormed_days l hwf r.ticker).1
+    (wellFormed_days l hwf r.ticker).2 (daysOf_strict l r.ticker) (C02.run_result w l rs h r hr)
+
 /-- an event that finds shares held moves the total of the offsets by exactly its signed amount -/
 theorem C03_event_moves_offsets_exactly (adj : Rat) (lots : List Lot) (hnn : ∀ l ∈ lots, 0 ≤ l.held)
     (hth : totalHeld lots ≠ 0) : offSum (applyAdj adj lots) = offSum lots + adj :=
@@ -97,5 +175,16 @@ def exDays : List Day :=
 def costOf (r : Except MErr (Option Pool × List Leg)) : Rat :=
   match r with | .ok (p, legs) => legCost legs + poolC' p | .error _ => -1
 example : costOf (runTicker "A" 30 exDays) = 100 * 2 + 5 + 20 * 3 + 2 := by decide +kernel
+
+-- non-vacuity of "took effect": a capital return and an accumulation while 100 shares are held count,
+-- an accumulation after everything was sold does not
+def exEvents : List Day :=
+  [ { date := ⟨2024, 1, 1⟩, buy := some ⟨0, 100, 2, 5⟩ },
+    { date := ⟨2024, 2, 1⟩, caps := [(1, 20)] },
+    { date := ⟨2024, 3, 1⟩, accs := [7] },
+    { date := ⟨2024, 4, 1⟩, sells := [⟨3, 100, 3, 0⟩] },
+    { date := ⟨2024, 5, 1⟩, accs := [9] } ]
+example : effAll "A" [] exEvents = -13 ∧ purchases exEvents = 205 := by decide +kernel
+example : exEvents.Pairwise (fun a b => a.ord < b.ord) := by decide +kernel
 
 end Cgt.C03
